@@ -54,6 +54,8 @@ def cases(tier, seed):
                 out.append(dict(model="pomo", env=env, s=rnd.randrange(10**6), epochs=2, S=S, bs=rnd.choice([3, 4])))
             for S, A in ((0, 4), (4, 4), (3, 2), (5, 2)):
                 out.append(dict(model="symnco", env=env, s=rnd.randrange(10**6), epochs=2, S=S, A=A, bs=3))
+                if (S, A) in ((0, 4), (3, 2)):  # non-default weights of the solution-symmetricity and invariance terms
+                    out.append(dict(model="symnco", env=env, s=rnd.randrange(10**6), epochs=2, S=S, A=A, bs=3, sym_beta=rnd.choice([0.5, 2.0]), sym_alpha=rnd.choice([0.5, 0.05])))
             for norm in (False, True):
                 out.append(dict(model="ppo", env=env, s=rnd.randrange(10**6), epochs=2, mb=rnd.choice([2, 3]), norm_adv=norm, bs=6, train=12))
             # documented mini-batch specifications: a fraction of the rollout batch, a size above the batch (clamped), with an lr schedule
